@@ -519,6 +519,8 @@ class SimSSHServer:
                 return
             pmod = wire.det_int(size, self.name + '/gex')
             g = int(self.p.get('gex', {}).get('g', 2))
+            if self.p.get('quiet_packets'):      # SSH_MSG_IGNORE / SSH_MSG_DEBUG packets ahead of the message (RFC 4253 section 11): not a fault
+                yield ('send', 'quiet', bytes.fromhex(self.p['quiet_packets']))
             yield ('send', 'group', self.frame(bytes([wire.MSG_GEX_GROUP]) + wire.mpint(pmod) + wire.mpint(g)))
             if pc.log['tx'][-1]['intact']:
                 self.log['gex_requests'][-1]['delivered'] = True
@@ -536,6 +538,8 @@ class SimSSHServer:
             log['rx'].append(('gex_e_matches_x', x is not None and int.from_bytes(e, 'big') == pow(g, x, pmod)))
             self._check_e(log, e, pmod)
             reply = bytes([wire.MSG_GEX_REPLY]) + wire.sstr(blob) + wire.mpint(wire.det_int(min(size, 512) - 1, 'f')) + wire.sstr(wire.sstr(keys_) + wire.sstr(wire.det_bytes(64, 'sig')))
+            if self.p.get('quiet_packets'):      # SSH_MSG_IGNORE / SSH_MSG_DEBUG packets ahead of the message (RFC 4253 section 11): not a fault
+                yield ('send', 'quiet', bytes.fromhex(self.p['quiet_packets']))
             yield ('send', 'reply', self.frame(reply))
         else:
             if mtype != wire.MSG_KEXDH_INIT:
@@ -555,6 +559,8 @@ class SimSSHServer:
             ndebug = int(p.get('debug_before_reply', 0))
             for _ in range(ndebug):
                 yield ('send', 'debug', self.frame(bytes([wire.MSG_DEBUG, 0]) + wire.sstr('sim debug') + wire.sstr('')))
+            if self.p.get('quiet_packets'):      # SSH_MSG_IGNORE / SSH_MSG_DEBUG packets ahead of the message (RFC 4253 section 11): not a fault
+                yield ('send', 'quiet', bytes.fromhex(self.p['quiet_packets']))
             yield ('send', 'reply', self.frame(reply))
         if pc.log['tx'][-1]['intact']:
             self.log['hostkeys_sent'].append({'conn': pc.ordinal, 'alg': keys_, 'kex': kexs, 'blob_sha256': wire.fp_sha256(blob), 'len': len(blob)})
